@@ -21,6 +21,11 @@ import Mathlib.Algebra.Field.Basic
 import Mathlib.Tactic.Ring
 import Mathlib.Tactic.LinearCombination
 import Mathlib.Tactic.FieldSimp
+import Mathlib.Algebra.Order.BigOperators.Group.Finset
+import Mathlib.Algebra.Order.Ring.Defs
+import Mathlib.Algebra.Order.Field.Basic
+import Mathlib.Tactic.Positivity
+import Mathlib.Tactic.Linarith
 
 namespace Darsia.Saddle
 open Finset
@@ -345,4 +350,76 @@ theorem anderson_preserves_balance {I : Type*} (s : Finset I) (D : C → F → K
     rw [h1, div_smul, div_sub, ha i hi c, hb i hi c, sub_self, mul_zero]
   rw [sum_congr rfl this, sum_const_zero, sub_zero]
 
+/-! ### uniqueness -/
+
+section Unique
+variable {K : Type*} [Field K] [LinearOrder K] [IsStrictOrderedRing K]
+  {F C : Type*} [Fintype F] [Fintype C] [DecidableEq C]
+
+/-- the kernel of `Dᵀ` consists of the constant cell fields (connectivity of the grid) -/
+def KerDTConst (D : C → F → K) : Prop := ∀ p : C → K, (∀ e, divT D p e = 0) → ∀ c c', p c = p c'
+
+/-- homogeneous full system with positive weights and connected grid: only the zero solution -/
+theorem full_homogeneous_zero {w : F → K} (hw : ∀ e, 0 < w e) {D : C → F → K} (hker : KerDTConst D) {k : C}
+    {u : F → K} {p : C → K} {lam : K} (h : Full w D k (fun _ => 0) (fun _ => 0) 0 u p lam) :
+    (∀ e, u e = 0) ∧ (∀ c, p c = 0) ∧ lam = 0 := by
+  have hflux : ∀ e, w e * u e = divT D p e := fun e => by have := h.flux e; linear_combination this
+  have hmass : ∀ c, div D u c = ind k c lam := fun c => by have := h.mass c; linear_combination this
+  -- energy identity
+  have henergy : ∑ e, w e * (u e * u e) = 0 := by
+    have h1 : ∑ e, w e * (u e * u e) = ∑ e, u e * divT D p e :=
+      sum_congr rfl fun e _ => by rw [← hflux e]; ring
+    have h2 : ∑ e, u e * divT D p e = ∑ c, p c * div D u c := by
+      unfold divT div
+      simp only [mul_sum]
+      rw [sum_comm]
+      exact sum_congr rfl fun c _ => sum_congr rfl fun e _ => by ring
+    have h3 : ∑ c, p c * div D u c = p k * lam := by
+      rw [sum_congr rfl fun c _ => by rw [hmass c]]
+      unfold ind
+      simp only [mul_ite, mul_zero]
+      rw [sum_ite_eq' univ k (fun c => p c * lam)]
+      simp
+    rw [h1, h2, h3, h.pin, zero_mul]
+  have hu : ∀ e, u e = 0 := by
+    have hnn : ∀ e ∈ univ, 0 ≤ w e * (u e * u e) := fun e _ =>
+      mul_nonneg (le_of_lt (hw e)) (mul_self_nonneg _)
+    have := (sum_eq_zero_iff_of_nonneg hnn).1 henergy
+    intro e
+    have he := this e (mem_univ e)
+    rcases mul_eq_zero.1 he with h0 | h0
+    · exact absurd h0 (ne_of_gt (hw e))
+    · exact mul_self_eq_zero.1 h0
+  have hp : ∀ c, p c = 0 := by
+    have hz : ∀ e, divT D p e = 0 := fun e => by rw [← hflux e, hu e, mul_zero]
+    intro c
+    rw [hker p hz c k, h.pin]
+  refine ⟨hu, hp, ?_⟩
+  have := hmass k
+  unfold div ind at this
+  rw [if_pos rfl, sum_congr rfl fun e _ => by rw [hu e, mul_zero], sum_const_zero] at this
+  exact this.symm
+
+/-- **uniqueness**: with positive weights on a connected grid the full block system has at most one solution; hence all
+formulations, which have the same solution set, return THE same flux, pressure and multiplier -/
+theorem full_unique {w : F → K} (hw : ∀ e, 0 < w e) {D : C → F → K} (hker : KerDTConst D) {k : C}
+    {g : F → K} {f : C → K} {r : K} {u u' : F → K} {p p' : C → K} {lam lam' : K}
+    (h : Full w D k g f r u p lam) (h' : Full w D k g f r u' p' lam') : u = u' ∧ p = p' ∧ lam = lam' := by
+  have hd : Full w D k (fun _ => 0) (fun _ => 0) 0 (fun e => u e - u' e) (fun c => p c - p' c) (lam - lam') := by
+    refine ⟨fun e => ?_, fun c => ?_, by simp [h.pin, h'.pin]⟩
+    · have a := h.flux e; have b := h'.flux e
+      unfold divT at a b ⊢
+      rw [show (∑ c, D c e * (p c - p' c)) = (∑ c, D c e * p c) - ∑ c, D c e * p' c by
+        rw [← sum_sub_distrib]; exact sum_congr rfl fun c _ => by ring]
+      linear_combination a - b
+    · have a := h.mass c; have b := h'.mass c
+      unfold div ind at a b ⊢
+      rw [show (∑ e, D c e * (u e - u' e)) = (∑ e, D c e * u e) - ∑ e, D c e * u' e by
+        rw [← sum_sub_distrib]; exact sum_congr rfl fun e _ => by ring]
+      split_ifs at a b ⊢ <;> linear_combination a - b
+  obtain ⟨h1, h2, h3⟩ := full_homogeneous_zero hw hker hd
+  exact ⟨funext fun e => sub_eq_zero.1 (h1 e), funext fun c => sub_eq_zero.1 (h2 c), sub_eq_zero.1 h3⟩
+end Unique
+
 end Darsia.Saddle
+
